@@ -33,12 +33,6 @@ Section Ext.
     now rewrite lib_retry_ext.
   Qed.
 
-  Lemma lib_nodes_all_ext : forall libs en acc, lib_nodes_all nl1 en libs acc = lib_nodes_all nl2 en libs acc.
-  Proof.
-    induction libs as [|l r IH]; intros; simpl; [reflexivity|].
-    rewrite load_library_nodes_ext. destruct (load_library_nodes nl2 en l) as [p|]; [|reflexivity]. simpl. apply IH.
-  Qed.
-
   Lemma scene_pass_ext : forall todo en loaded pending progress,
     scene_pass nl1 en todo loaded pending progress = scene_pass nl2 en todo loaded pending progress.
   Proof.
@@ -133,7 +127,7 @@ Proof.
   destruct (omapM (load_light numtab) (lib_elems a_library_lights a_light root)) as [lights|] eqn:LL; [|discriminate H].
   rewrite (omapM_refine _ _ _ _ (load_light_refines numtab) LL). cbn [obind] in H |- *.
   step H.
-  rewrite (lib_nodes_all_ext read_node_loader load_node read_node_loader_eq).
+  rewrite (load_library_nodes_ext read_node_loader load_node read_node_loader_eq).
   step H.
   rewrite (omapM_ext _ _ _ (load_scene_ext read_node_loader load_node read_node_loader_eq _)).
   step H. step H.
